@@ -69,6 +69,10 @@ def sig(variant, a, dt, lo, hi, se=True):
             r = im.calc_sig_dur_vals(a, dt, start=lo, end=hi, se=se)
         elif variant == "arias":
             r = im.calc_sig_dur(mk(), start=lo, end=hi, se=se)
+        elif variant == "cumsq":
+            # a user-supplied cumulative measure that does NOT start at zero: the running sum of squares (must agree with
+            # the array variant, whose cumulative series is the same)
+            r = im.calc_sig_dur(mk(), start=lo, end=hi, im=lambda s: np.cumsum(np.asarray(s.values, dtype=float) ** 2), se=se)
         else:
             r = im.calc_sig_dur(mk(), start=lo, end=hi, im=im.calc_cav, se=se)
     except IndexError:
@@ -93,7 +97,7 @@ def brac(a, dt, thr):
 def table_row(code, digits):
     a = np.array(digits, dtype=float) - 3.0
     row = [code]
-    for variant in ("vals", "arias", "cav"):
+    for variant in ("vals", "arias", "cumsq"):
         for lo, hi in PAIRS:
             r, t0, t1 = sig(variant, a, DT, lo, hi)
             row += [r] + enc(t0) + enc(t1)
@@ -126,7 +130,7 @@ def build_traces(path, tier, seed):
         if i % 5 == 0:
             a = np.round(a / (np.max(np.abs(a)) + 1e-300) * 4)     # integer valued: exact ties with dyadic fractions
         dt = gen.dt(rng)
-        variant = ["vals", "arias", "cav"][i % 3]
+        variant = ["vals", "arias", "cav", "cumsq"][i % 4]
         if i % 4 == 0:
             lo, hi = 0.05, 0.95
         elif i % 4 == 1:
